@@ -421,10 +421,6 @@ func init() {
 				r.PropertyOrder = append(make([]string, 0, 8), names[len(names)-1])
 			}
 		}
-		rs, err := u.root.Resolve(u.opts)
-		if err != nil {
-			return map[string]any{"outcome": "resolve-error"}, nil
-		}
 		var insts []any
 		var texts [][]byte
 		for _, it := range a.Insts {
@@ -457,6 +453,12 @@ func init() {
 		}
 		seqFor, _ := jsonschema.For[T](nil)
 		seqForB, _ := json.Marshal(seqFor)
+		// the shared Resolved is made last (with the options of the operation: validateDefaults makes Resolve itself run the
+		// evaluator over every default), so that the goroutines start on it right after Resolve returns
+		rs, err := u.root.Resolve(u.opts)
+		if err != nil {
+			return map[string]any{"outcome": "resolve-error"}, nil
+		}
 		const k, m = 8, 6
 		var wg sync.WaitGroup
 		var mu sync.Mutex
